@@ -142,10 +142,18 @@ def run(ctx, build):
                     # write request and garbage
                     sim = Sim({}, handler_cls=BootHandler, server_attrs=dict(boards=boards, images=images))
                     try:
-                        sent, _ = sim.packet(0, 1, b'\0\2%x/new.txt\0octet\0' % (0x200 + i), 5000)
-                        if len(sent) != 1 or sent[0][1][:2] != b'\0\5':
-                            ctx.violation('boot.serve/wrq-not-refused', f'write request answered by {sent}', dict(image_class=cls))
-                            return
+                        serial = b'%x' % (0x200 + i)
+                        wrqs = [serial + b'/new.txt\0octet\0', serial + b'/kernel.img\0octet\0', serial + b'/config.txt\0netascii\0',
+                                serial + 'caf\u00e9 \u65e5\u672c.txt'.encode('utf-8').join([b'/', b'\0octet\0']),
+                                serial + b'/a name with spaces.bin\0OCTET\0blksize\x001024\0tsize\x0012\0',
+                                'gr\u00fc\u00dfe/\U0001F600.bin'.encode('utf-8') + b'\0octet\0', b'nosuchboard/x\0octet\0',
+                                serial + b'/' + b'n' * 300 + b'\0octet\0', b'/etc/passwd\0octet\0', serial + b'/../../x\0mail\0']
+                        for k, w in enumerate(wrqs):
+                            sent, _ = sim.packet(0, 1, b'\0\2' + w, 5000 + 10 * k)
+                            ctx.stat('wrq')
+                            if len(sent) != 1 or sent[0][1][:2] != b'\0\5':
+                                ctx.violation('boot.serve/wrq-not-refused', f'write request {w!r} answered by {sent} instead of one ERROR packet', dict(image_class=cls, wrq=w.hex()))
+                                return
                         sim.packet(0, 1, b'\0\4\0\1', 5001); sim.packet(0, 1, b'junk', 5002)
                     finally:
                         sim.restore()
